@@ -101,7 +101,7 @@ Configs ==
        /\ \A s \in Subs : c.conn[s] = 1 \/ \E q \in Subs : q < s /\ c.conn[q] = c.conn[s] - 1
        /\ CfgOK(c) }
 
-Local0 == [pc |-> "none", cur |-> 0, todo |-> {}, cq |-> {}, kq |-> {}, ret |-> "", nx |-> "", e |-> 0, fan |-> {}, n |-> 0]
+Local0 == [pc |-> "none", cur |-> 0, todo |-> {}, cq |-> {}, kq |-> {}, ret |-> "", nx |-> "", e |-> 0, fan |-> {}, n |-> 0, wn |-> ""]
 
 InitG == [reg     |-> [k \in Keys |-> 0],
           isubs   |-> [i \in Inst |-> {}],
@@ -205,6 +205,13 @@ Detach(gg, oo, k) ==
 
 \* a writer call on subscriber s (kind) : bookkeeping for NoWriteAfterClose
 WCall(oo, gg, kind, s) == IF gg.closed[s] > 0 THEN [oo EXCEPT !.wafter = @ \cup {<<kind, s>>}] ELSE oo
+
+\* An error message is written through the AsyncErrorWriter under writeMu (writeError / failed render). The harness' writer has a gate
+\* inside that write: w.werr.enter (the actor sits inside the writer holding writeMu[s]; cur = s), then w.werr when the write returns.
+WerrEnter(a, s, loc) == Do(a, loc, [g EXCEPT !.wMu[s] = a], WCall(o, g, "werror", s), "w.werr.enter", s, 0, 0)
+WerrDone(a) == LET s == ac[a].cur IN
+  /\ ac[a].pc = "we.in"
+  /\ Do(a, [ac[a] EXCEPT !.pc = ac[a].wn], [g EXCEPT !.wMu[s] = NoActor], WCall(o, g, "werror", s), "w.werr", s, 0, 0)
 
 \* an actor of instance i acts on the instance j it found by id
 Stale(oo, kind, i, j) == IF j # 0 /\ j # i THEN [oo EXCEPT !.stale = @ \cup {kind}] ELSE oo
@@ -424,7 +431,7 @@ FeChk(a) == LET s == ac[a].cur IN
   /\ ac[a].pc = "up.fechk" /\ Free(g.wMu[s])
   /\ IF g.removed[s]
      THEN FeNext(a, ac[a].todo)
-     ELSE Do(a, [ac[a] EXCEPT !.pc = "up.fenext"], g, WCall(o, g, "werror", s), "w.werr", s, 0, 0)
+     ELSE WerrEnter(a, s, [ac[a] EXCEPT !.pc = "we.in", !.wn = "up.fenext"])
 
 \* wg.Wait() returned
 UpWait(a) == LET i == Inst0(a)  e == ac[a].e IN
@@ -531,7 +538,7 @@ ULock(a) == LET s == a[2] IN
 \* rendering failed (Resolve returned an error): the error is written through the AsyncErrorWriter under writeMu, nothing is flushed
 UResolveErr(a) == LET s == a[2] IN
   /\ ac[a].pc = "u.locked" /\ cfg.rerr[s]
-  /\ Do(a, [ac[a] EXCEPT !.pc = "u.fin"], [g EXCEPT !.wMu[s] = NoActor], WCall(o, g, "werror", s), "w.werr", s, 0, 0)
+  /\ Do(a, [ac[a] EXCEPT !.pc = "we.in", !.cur = s, !.wn = "u.fin"], g, WCall(o, g, "werror", s), "w.werr.enter", s, 0, 0)
 
 UWrite(a) == LET s == a[2] IN
   /\ ac[a].pc = "u.locked" /\ ~cfg.rerr[s]
@@ -580,7 +587,7 @@ HWerr(a) == LET s == a[2] IN
   /\ ac[a].pc = "h.werr" /\ Free(g.wMu[s])
   /\ IF g.removed[s]
      THEN Do(a, [ac[a] EXCEPT !.pc = "un.begin", !.cur = s, !.ret = "h.end"], g, o, "sub.unsub.begin", s, 0, 0)
-     ELSE Do(a, [ac[a] EXCEPT !.pc = "un.call", !.cur = s, !.ret = "h.end"], g, WCall(o, g, "werror", s), "w.werr", s, 0, 0)
+     ELSE WerrEnter(a, s, [ac[a] EXCEPT !.pc = "we.in", !.cur = s, !.ret = "h.end", !.wn = "un.call"])
 
 \* Source.Start(cloneCtx, ..., updater)
 GStart(a) == LET i == Inst0(a)
@@ -617,7 +624,7 @@ GWerr(a) == LET s == ac[a].cur IN
   /\ ac[a].pc = "g.werr" /\ Free(g.wMu[s])
   /\ IF g.removed[s]
      THEN WeNext(a, ac[a].todo)
-     ELSE Do(a, [ac[a] EXCEPT !.pc = "g.wnext"], g, WCall(o, g, "werror", s), "w.werr", s, 0, 0)
+     ELSE WerrEnter(a, s, [ac[a] EXCEPT !.pc = "we.in", !.wn = "g.wnext"])
 
 GWnext(a) ==
   /\ ac[a].pc = "g.wnext"
@@ -675,17 +682,17 @@ Micro(a) ==
                      \/ RcStep(a) \/ UnCall(a) \/ UnBegin(a) \/ TdNext(a) \/ TdClose(a)
     [] a[1] \in {"s", "d"} ->
                      \/ (\E s \in Subs : SCmdCloseSub(a, s)) \/ CsCall(a)
-                     \/ (\E s \in Subs : SCmdUpdSub(a, s)) \/ UpFe(a) \/ FeChk(a)
+                     \/ (\E s \in Subs : SCmdUpdSub(a, s)) \/ UpFe(a) \/ FeChk(a) \/ WerrDone(a)
                      \/ SCmdUpdate(a) \/ SCmdComplete(a) \/ SCmdError(a) \/ SCmdHeartbeat(a) \/ SCmdDone(a)
                      \/ SRet(a) \/ UpCall(a) \/ UpWait(a)
                      \/ CeCall(a, "co") \/ CeChk(a, "co") \/ CeStep(a, "co")
                      \/ CeCall(a, "er") \/ CeChk(a, "er") \/ CeStep(a, "er")
                      \/ HbCall(a) \/ HbChk(a) \/ HbStep(a) \/ DnCall(a) \/ DtBegin(a)
                      \/ UnCall(a) \/ UnBegin(a) \/ TdNext(a) \/ TdClose(a)
-    [] a[1] = "u" -> \/ UBegin(a) \/ UFetch(a) \/ ULock(a) \/ UResolveErr(a) \/ UWrite(a) \/ UFlush(a) \/ UFin(a)
+    [] a[1] = "u" -> \/ WerrDone(a) \/ UBegin(a) \/ UFetch(a) \/ ULock(a) \/ UResolveErr(a) \/ UWrite(a) \/ UFlush(a) \/ UFin(a)
                      \/ UnCall(a) \/ UnBegin(a) \/ TdNext(a) \/ TdClose(a)
-    [] a[1] = "h" -> \/ HHook(a) \/ HRet(a) \/ HFail(a) \/ HWerr(a) \/ UnCall(a) \/ UnBegin(a) \/ TdNext(a) \/ TdClose(a)
-    [] a[1] = "g" -> \/ GBegin(a) \/ GHook(a) \/ GHookRet(a) \/ GStart(a) \/ GOk(a) \/ GInit(a) \/ GFail(a) \/ GWerr(a) \/ GWnext(a) \/ GFin(a)
+    [] a[1] = "h" -> \/ WerrDone(a) \/ HHook(a) \/ HRet(a) \/ HFail(a) \/ HWerr(a) \/ UnCall(a) \/ UnBegin(a) \/ TdNext(a) \/ TdClose(a)
+    [] a[1] = "g" -> \/ WerrDone(a) \/ GBegin(a) \/ GHook(a) \/ GHookRet(a) \/ GStart(a) \/ GOk(a) \/ GInit(a) \/ GFail(a) \/ GWerr(a) \/ GWnext(a) \/ GFin(a)
                      \/ DtBegin(a) \/ TdNext(a) \/ TdClose(a)
     [] a[1] = "sh" -> \/ ShSpawned \/ ShBegin \/ ShLoop \/ ShFin \/ TdNext(a) \/ TdClose(a)
     [] a[1] = "env" -> EnvShutdown
@@ -731,7 +738,7 @@ NoWriteAfterClose == o.wafter = {}
 \* completed is closed at most once (a second close is a panic)
 ClosedOnce == \A s \in Subs : g.closed[s] <= 1
 \* writer calls of one subscriber never overlap: at most one actor is inside a writer call / holds the writer
-InWriter(s) == {a \in Actors : (a[1] = "u" /\ a[2] = s /\ ac[a].pc \in {"u.locked", "u.flushing"})}
+InWriter(s) == {a \in Actors : (a[1] = "u" /\ a[2] = s /\ ac[a].pc \in {"u.locked", "u.flushing"}) \/ (ac[a].pc = "we.in" /\ ac[a].cur = s)}
 WriterExclusive == /\ ~o.overlap
                    /\ \A s \in Subs : Cardinality(InWriter(s)) <= 1 /\ (InWriter(s) # {} => g.wMu[s] \in InWriter(s))
 \* delivered = filtered events in emission order, each exactly once, nothing foreign, nothing missing
